@@ -65,13 +65,14 @@ def matrix_obs(ctx, vals):
 def sort_obs(xs_tags, how):
     ids = IdMap()
     xs = [untag(t, ids) for t in xs_tags]
-    try:
-        out = sort(xs) if how == 'sort' else sorted(xs, key=Cmp)
+    try:      # how: sort(list) | sorted(list, key = Cmp) | sort(tuple) | sort(iterator) | sort(dict keys) | sort(object array)
+        out = sort(xs) if how == 'sort' else sorted(xs, key=Cmp) if how == 'Cmp' else sort(tuple(xs)) if how == 'sort_tuple' else \
+              sort(iter(xs)) if how == 'sort_iter' else sort(np.array(xs + [None], dtype=object)[:-1])
         raised = ''
     except Exception as e:
-        return {'kind': 'sort', 'how': how, 'xs': xs_tags, 'raised': type(e).__name__, 'out': [], 'adj': [], 'far': []}
+        return {'kind': 'sort', 'how': how, 'xs': xs_tags, 'raised': type(e).__name__, 'out': [], 'adj': [], 'far': [], 'after': xs_tags}
     n = len(out) if len(out) <= 16 else 0      # every pair i < j of a short result, not only the adjacent ones
-    return {'kind': 'sort', 'how': how, 'xs': xs_tags, 'raised': raised, 'out': [tag(v, ids) for v in out],
+    return {'kind': 'sort', 'how': how, 'xs': xs_tags, 'raised': raised, 'out': [tag(v, ids) for v in out], 'after': [tag(v, ids) for v in xs],
             'adj': [safe_cmp(out[i], out[i + 1]) for i in range(len(out) - 1)],
             'far': [[i + 1, j + 1, safe_cmp(out[i], out[j])] for i in range(n) for j in range(i + 2, n)]}
 
@@ -120,7 +121,7 @@ def dsortval_obs(rows, orders):
     o = {'kind': 'dsortval', 'rows': rows, 'orders': orders, 'raised': '', 'out': [], 'after': []}
     try:
         def spell(vals, k):
-            return [vals, tuple(vals), dict.fromkeys(vals).keys()][k % 3] if all(isinstance(v, (int, str, float, type(None))) or True for v in vals) else vals
+            return [vals, tuple(vals), dict.fromkeys(vals).keys(), np.array(vals + [None], dtype=object)[:-1]][k % 4]
         res = d.sort(**{c: spell([untag(v, ids) for v in vs], len(rows) + j) for j, (c, vs) in enumerate(orders)})
         o['out'] = proj_rows(res, ids)
     except Exception as e:
@@ -188,6 +189,8 @@ def session_obs(c):
                     d[st['col']] = vals
                 elif st['how'] == 'attr':
                     setattr(d, st['col'], vals)
+                elif st['how'] == 'update':
+                    d.update({st['col']: vals})
                 else:
                     getattr(d, st['col'])[st['pos'] - 1] = vals[st['pos'] - 1]      # one element of the column the table holds
             elif op == 'setlst':
@@ -321,7 +324,7 @@ def run(ctx):
         if rng.random() < 0.4:
             w = rng.choice([1, 2, 3])
             xs = [["t", [rng.choice(sub) for _ in range(w)]] for _ in range(rng.choice([2, 4, 7]))]
-        obs.append(sort_obs(xs, rng.choice(['sort', 'Cmp'])))
+        obs.append(sort_obs(xs, rng.choice(['sort', 'Cmp', 'sort', 'Cmp', 'sort_tuple', 'sort_iter', 'sort_array'])))
         rows = [{'a': rng.choice(sub), 'b': rng.choice(sub), 'id': ["i", k + 1]} for k in range(rng.choice([0, 1, 2, 2, 3, 4, 8, 15]))]
         by = rng.choice([['a'], ['b'], ['a', 'b'], ['b', 'a'], ['fn', 'swap'], ['fn', 'const'], ['fn', 'pair'], []])
         obs.append(dsort_obs(rows, by))
@@ -375,7 +378,7 @@ def run(ctx):
 
 def replay(ctx, body):
     c = body['case']
-    if c['op'] in ('sort', 'Cmp'): obs = [sort_obs(c['xs'], c['op'])]
+    if c['op'] in ('sort', 'Cmp', 'sort_tuple', 'sort_iter', 'sort_array'): obs = [sort_obs(c['xs'], c['op'])]
     elif c['op'] == 'dictable.sort': obs = [dsort_obs(c['rows'], c['by'])]
     elif c['op'] == 'dictable.sort(**byval)': obs = [dsortval_obs(c['rows'], c['orders'])]
     elif c['op'] == 'session': obs = [session_obs({'seed': c['seed'], 'dup': c['dup_in_order'], 'init': c['init'], 'hist': c['hist']})]
